@@ -1311,7 +1311,12 @@ class Builder(object):
                 index += 1
 
                 if connective == 'at':
-                    period = max(0.0, Convert2Num(tokens[index]))
+                    try:
+                        period = max(0.0, Convert2Num(tokens[index]))
+                    except TypeError:  # complex number has no order
+                        msg = "Error building %s. Bad period got %s." %\
+                                (command, tokens[index])
+                        raise excepting.ParseError(msg, tokens, index)
                     index +=1
 
                 elif connective == 'be':
@@ -2908,7 +2913,7 @@ class Builder(object):
                         period = max(0.0, Convert2Num(tokens[index]))  # period is number
                         index += 1  # eat token
 
-                    except ValueError:  # parse indirect
+                    except (ValueError, TypeError):  # not a real number so parse indirect
                         sourceField, index = self.parseField(tokens, index)
                         sourcePath, index =  self.parseIndirect(tokens, index)
 
